@@ -64,7 +64,21 @@ func firstUseRoutines() []func() string {
 			return fmt.Sprint(img.Bounds(), img.GrayAt(20, 20))
 		},
 		func() string {
-			return fmt.Sprint(toolbox3d.NewRectSet().Mesh().NumTriangles(), model3d.NewConvexPolytopeRect(model3d.XYZ(0, 0, 0), model3d.XYZ(1, 2, 3)).Mesh().NumTriangles())
+			// box sets and height maps whose meshes have pinched edges and vertices to separate (every goroutine its own)
+			rs := toolbox3d.NewRectSet()
+			for i := 0; i < 4; i++ {
+				f := float64(i)
+				rs.Add(&model3d.Rect{MinVal: model3d.XYZ(f, f, f*0.5), MaxVal: model3d.XYZ(f+1, f+1, f*0.5+1)})
+			}
+			rs.Add(&model3d.Rect{MinVal: model3d.XYZ(1, 0, 1), MaxVal: model3d.XYZ(2, 1, 2)})
+			m := rs.Mesh()
+			hm := toolbox3d.NewHeightMap(model2d.XY(0, 0), model2d.XY(1, 1), 12)
+			for i := 0; i < 6; i++ {
+				hm.AddSphere(model2d.XY(0.15+0.14*float64(i), 0.2+0.12*float64(i%3)), 0.09)
+			}
+			hmesh := hm.Mesh()
+			return fmt.Sprint(m.NumTriangles(), m.NeedsRepair(), len(m.SingularVertices()), hmesh.NumTriangles(), hmesh.NeedsRepair(), len(hmesh.SingularVertices()),
+				toolbox3d.NewRectSet().Mesh().NumTriangles(), model3d.NewConvexPolytopeRect(model3d.XYZ(0, 0, 0), model3d.XYZ(1, 2, 3)).Mesh().NumTriangles())
 		},
 		func() string {
 			return fmt.Sprint(model2d.Triangulate([]model2d.Coord{{X: 0, Y: 0}, {X: 0.9, Y: 0.3}, {X: 2, Y: 0}, {X: 1, Y: 2}}))
